@@ -6,7 +6,7 @@ from dataclasses import dataclass
 from typing import Dict, List, Optional, Tuple
 
 from . import sym
-from .model import AnalysisError, ModuleInfo, Repo
+from .model import AnalysisError, ModuleInfo, Repo, PACKAGE
 
 FAMILIES = ["bsd", "dyld", "fsystem", "mach", "perf", "trace", "turnstile"]
 
@@ -236,6 +236,34 @@ def families_in_parser(repo: Repo) -> List[str]:
     for local, target in tp.imports.items():
         if target.endswith(".handlers") and ".trace_handlers." in target:
             aliases[local] = target.split(".")[-2]
+    # the family MODULES imported instead (`from ...trace_handlers import bsd, dyld`): their registries are `bsd.handlers`, or the
+    # `.handlers` of the loop variable of a loop over a tuple of the modules
+    mod_aliases = {}
+    for local, target in tp.imports.items():
+        if target.startswith(f"{PACKAGE}.trace_handlers.") and target.count(".") == 2 and target in repo.modules:
+            mod_aliases[local] = target.split(".")[-1]
+    if mod_aliases and not aliases:
+        uses_attr = any(isinstance(n, ast.Attribute) and n.attr == "handlers" for n in ast.walk(tp.tree))
+        if uses_attr:
+            refs_m = sorted(((n.lineno, n.col_offset, n.id) for n in ast.walk(tp.tree)
+                             if isinstance(n, ast.Name) and isinstance(n.ctx, ast.Load) and n.id in mod_aliases), key=lambda r: r[:2])
+            order_m: List[str] = []
+            for _, _, name in refs_m:
+                if mod_aliases[name] not in order_m:
+                    order_m.append(mod_aliases[name])
+            # a module only mentioned as `trace.handlers` in the domain test still has to be merged: it counts when it is an
+            # element of a tuple / list (the table of modules) or the base of `.handlers` inside a call
+            merged = set()
+            for node in ast.walk(tp.tree):
+                if isinstance(node, (ast.Tuple, ast.List)):
+                    merged |= {mod_aliases[e.id] for e in node.elts if isinstance(e, ast.Name) and e.id in mod_aliases}
+                if isinstance(node, ast.Call):
+                    for a in list(node.args) + [k.value for k in node.keywords]:
+                        for n in ast.walk(a):
+                            if isinstance(n, ast.Attribute) and n.attr == "handlers" and isinstance(n.value, ast.Name) \
+                                    and n.value.id in mod_aliases:
+                                merged.add(mod_aliases[n.value.id])
+            return [f for f in order_m if f in merged]
     if not aliases:
         return []
     order: List[str] = []
